@@ -288,3 +288,16 @@ void run_case(ByteSource& s, CaseInfo& ci) {
   ci.sample = log;
 }
 void enumerate(const Emit&, const std::string&) {}
+
+// fixed findings 46fd8d4 (rejected list/matrix constructors leaked) and 0bf788b (dimension-0 blocks never released)
+void regressions() {
+  warmup();
+  size_t live0 = ledger::live_blocks();
+  for (int n : {1, 2, 3, 5, 49, 64}) { try { SU_vector v(std::vector<double>(n, 0.5)); } catch (const std::exception&) {} }
+  for (int r = 1; r <= 8; r++) for (int c = 1; c <= 8; c++) { if (r == c && r >= 2 && r <= 6) continue; GslMat g(r, c); try { SU_vector v(g.m); } catch (const std::exception&) {} }
+  SU_vector::clear_mem_cache();
+  CHECK(ledger::live_blocks() == live0, "C15|blocks-not-released-at-quiescence", "regression: rejected constructors leaked %ld block(s)", (long)ledger::live_blocks() - (long)live0);
+  { SU_vector e, v(3); v = e; }
+  SU_vector::clear_mem_cache();
+  CHECK(ledger::live_blocks() == live0, "C15|blocks-not-released-at-quiescence", "regression: the block of a vector assigned from an empty one was never released");
+}
